@@ -152,10 +152,15 @@ OfferViol(St, o) ==
     (IF C18_ScheduledOnlyIfRetract(St, o.res, o.ret, o.pre) THEN {} ELSE {<<"frontier", "C18_ScheduledOnlyIfRetract">>}) \cup
     (IF C18_RunningOnlyIfPreempt(St, o.res, o.pre) THEN {} ELSE {<<"frontier", "C18_RunningOnlyIfPreempt">>}) \cup
     (IF ~World.fl.no_plan_ahead THEN {}
-     ELSE LET off == C18_ParentsDoneOffenders(St, o.res, o.la, o.rtg) IN
-          (IF \E t \in off : ~OverduePlacementInGraph(St, GraphOf(St, t), o.tm) THEN {<<"frontier", "C18_ParentsDone">>} ELSE {}) \cup
-          (IF \E t \in off : OverduePlacementInGraph(St, GraphOf(St, t), o.tm)
-           THEN {<<"frontier", "C18_ParentsDone_after_deferred_placement">>} ELSE {})) \cup
+     ELSE LET off == C18_ParentsDoneOffenders(St, o.res, o.la, o.rtg)
+              overdue(t) == OverduePlacementInGraph(St, GraphOf(St, t), o.tm)
+              lateSrc(t) == UnreleasedSourceParent(St, t)
+              branch(t) == o.pol # "ALL" /\ ParentOnUnpredictedBranch(St, t)
+          IN
+          (IF \E t \in off : ~overdue(t) /\ ~lateSrc(t) /\ ~branch(t) THEN {<<"frontier", "C18_ParentsDone">>} ELSE {}) \cup
+          (IF \E t \in off : ~overdue(t) /\ ~lateSrc(t) /\ branch(t) THEN {<<"frontier", "C18_ParentsDone_parent_on_unpredicted_branch">>} ELSE {}) \cup
+          (IF \E t \in off : overdue(t) THEN {<<"frontier", "C18_ParentsDone_after_deferred_placement">>} ELSE {}) \cup
+          (IF \E t \in off : ~overdue(t) /\ lateSrc(t) THEN {<<"frontier", "C18_ParentsDone_unreleased_source_parent">>} ELSE {})) \cup
     (IF C18_NoDuplicates(o.res) THEN {} ELSE {<<"frontier", "C18_NoDuplicates">>}) \cup
     (IF ~o.pre /\ FrontierDeterministic(St, o.pol) /\ Schedulable(St, o.tm, o.la, o.ret, o.rtg) # o.res
      THEN {<<"frontier", "C18_Exact">>} ELSE {}) \cup
